@@ -22,7 +22,7 @@ impl Group for E2eGroup {
             l("e2e halfclose socks 1000"), l("e2e halfclose direct 10"), l("e2e targetclose socks 2000"),
             l("e2e refused socks"), l("e2e reuse 6"), l("e2e reaper"),
             l("e2e badpreamble bitflip"), l("e2e badpreamble random"), l("e2e badpreamble truncated"), l("e2e badpreamble good"),
-            l("e2e badpreamble good 1"), l("e2e badpreamble trimmed 1"), l("e2e badpreamble good 3"), l("e2e badpreamble trimmed 5"), l("e2e badpreamble lower 10"),
+            l("e2e badpreamble good 1"), l("e2e badpreamble trimmed 1"), l("e2e badpreamble good 3"), l("e2e badpreamble trimmed 5"), l("e2e badpreamble lower 10"), l("e2e badpreamble straypause 0 3300"), l("e2e badpreamble goodpause 0 3300"), l("e2e badpreamble padpause 2 1200"),
             l("e2e pushe2e"), l("e2e preamble 77"), l("e2e finburst 5000 3 0"), l("e2e finburst 8192 4 0"), l("e2e finburst 3000 9 30"), l("e2e finburst 1 1 0"), l("e2e udp 1 100 1472 9000"), l("e2e udp6 1 100 1472 65507 3"), l("e2e udp 65507 1 30000 2"), l("e2e early socks 300"),
             l("e2e slow up direct 6000000"), l("e2e slow down socks 6000000"), l("e2e slow up socks 3000000"), l("e2e slow down http 3000000"), l("e2e slow up http 3000000"),
             l("e2e blackhole all"), l("e2e noname"), l("e2e certreload BxCtAmB"), l("e2e certreload xBEC"), l("e2e certreload DADxB"),
@@ -36,7 +36,7 @@ impl Group for E2eGroup {
             3 => format!("e2e halfclose {} {}", rng.pick(&["socks", "direct"]), rng.pick(&[0usize, 1, 5000, 200000])),
             4 => format!("e2e targetclose socks {}", rng.pick(&[0usize, 1, 5000, 200000])),
             5 => format!("e2e reuse {}", rng.range(2, 12)),
-            6 => format!("e2e badpreamble {} {}", rng.pick(&["bitflip", "random", "truncated", "good", "good", "trimmed", "lower"]), rng.below(crate::g_auth::PASSWORDS.len() as u64)),
+            6 => if rng.chance(1, 4) { format!("e2e badpreamble {} {} {}", rng.pick(&["straypause", "goodpause", "padpause"]), rng.below(crate::g_auth::PASSWORDS.len() as u64), rng.pick(&[300u64, 1100, 2200, 3300, 5500, 11000])) } else { format!("e2e badpreamble {} {}", rng.pick(&["bitflip", "random", "truncated", "good", "good", "trimmed", "lower"]), rng.below(crate::g_auth::PASSWORDS.len() as u64)) },
             7 => format!("e2e {} {}", rng.pick(&["udp", "udp", "udp6"]), (0..rng.range(1, 5)).map(|_| rng.pick(&[1usize, 2, 100, 1472, 9000, 30000, 65507]).to_string()).collect::<Vec<_>>().join(" ")),
             8 => format!("e2e early socks {}", rng.pick(&[1usize, 300, 20000])),
             9 => format!("e2e slow {} {} {}", rng.pick(&["up", "down"]), rng.pick(&["socks", "http", "direct"]), rng.pick(&[1_000_000usize, 3_000_000, 6_000_000, 12_000_000])),
@@ -54,7 +54,7 @@ impl Group for E2eGroup {
                 "targetclose" => format!("e2e targetclose socks {}", rng.pick(&[0usize, 1, 5000, 200000])),
                 "reuse" => format!("e2e reuse {}", rng.range(2, 12)),
                 "finburst" => format!("e2e finburst {} {} {}", rng.pick(&[1usize, 100, 4096, 5000, 8192, 8193, 20000, 65535]), rng.range(1, 12), rng.pick(&[0u64, 0, 1, 30])),
-                "badpreamble" => format!("e2e badpreamble {} {}", rng.pick(&["bitflip", "random", "truncated", "good", "good", "trimmed", "lower"]), rng.below(crate::g_auth::PASSWORDS.len() as u64)),
+                "badpreamble" => if rng.chance(1, 4) { format!("e2e badpreamble {} {} {}", rng.pick(&["straypause", "goodpause", "padpause"]), rng.below(crate::g_auth::PASSWORDS.len() as u64), rng.pick(&[300u64, 1100, 2200, 3300, 5500, 11000])) } else { format!("e2e badpreamble {} {}", rng.pick(&["bitflip", "random", "truncated", "good", "good", "trimmed", "lower"]), rng.below(crate::g_auth::PASSWORDS.len() as u64)) },
                 "udp" => format!("e2e {} {}", rng.pick(&["udp", "udp", "udp6"]), (0..rng.range(1, 5)).map(|_| rng.pick(&[1usize, 2, 100, 1472, 9000, 30000, 65507]).to_string()).collect::<Vec<_>>().join(" ")),
                 "early" => format!("e2e early socks {}", rng.pick(&[1usize, 300, 20000])),
                 "refused" => "e2e refused socks".to_string(),
@@ -120,8 +120,9 @@ async fn scenario(t: &[String]) -> Res {
         ["e2e", "certreload", script] => certreload(script).await,
         ["e2e", "reuse", n] => reuse(n.parse().map_err(|_| "n")?).await,
         ["e2e", "reaper"] => reaper().await,
-        ["e2e", "badpreamble", kind] => badpreamble(kind, 0).await,
-        ["e2e", "badpreamble", kind, pwi] => badpreamble(kind, pwi.parse().map_err(|_| "pwi")?).await,
+        ["e2e", "badpreamble", kind] => badpreamble(kind, 0, 0).await,
+        ["e2e", "badpreamble", kind, pwi] => badpreamble(kind, pwi.parse().map_err(|_| "pwi")?, 0).await,
+        ["e2e", "badpreamble", kind, pwi, ms] => badpreamble(kind, pwi.parse().map_err(|_| "pwi")?, ms.parse().map_err(|_| "ms")?).await,
         ["e2e", "pushe2e"] => pushe2e().await,
         ["e2e", "finburst", n, k, cut] => finburst(n.parse().map_err(|_| "n")?, k.parse().map_err(|_| "k")?, cut.parse().map_err(|_| "cut")?).await,
         ["e2e", "preamble", k] => preamble2(k.parse().map_err(|_| "k")?).await,
@@ -570,7 +571,7 @@ async fn reaper() -> Res {
 /// a hand-made preamble against a real server configured with password number `pwi` of the auth group's list
 /// (surrounding whitespace, line ends, non-ASCII ...): kinds good | bitflip | random | truncated | trimmed
 /// (digest of the password without its trailing whitespace) | lower (digest of the lower-cased password)
-async fn badpreamble(kind: &str, pwi: usize) -> Res {
+async fn badpreamble(kind: &str, pwi: usize, pause_ms: u64) -> Res {
     use sha2::{Digest, Sha256};
     let pw = crate::g_auth::PASSWORDS[pwi % crate::g_auth::PASSWORDS.len()].to_string();
     // (a server cannot be configured with an empty password through this scenario: empty means "the default")
@@ -595,8 +596,21 @@ async fn badpreamble(kind: &str, pwi: usize) -> Res {
     let tcp = tokio::net::TcpStream::connect(w.server_addr).await.map_err(|e| e.to_string())?;
     let name = tokio_rustls::rustls::pki_types::ServerName::IpAddress(std::net::IpAddr::V4(std::net::Ipv4Addr::LOCALHOST).into());
     let mut tls = connector.connect(name, tcp).await.map_err(|e| e.to_string())?;
+    // kinds with a pause inside the preamble (`pause_ms` of real time): `straypause` = five stray bytes, pause, then a
+    // complete genuine preamble and an open (what was received does not start with the hash: no session); `goodpause` /
+    // `padpause` = the genuine preamble with a pause right after the hash / inside the declared padding (a session)
+    let paused = matches!(kind, "straypause" | "goodpause" | "padpause");
+    let kind = match kind { "straypause" => "stray", "goodpause" => "good", "padpause" => "goodpad", k => k };
     let mut msg = hash.clone();
-    if kind != "truncated" {
+    if kind == "goodpad" {
+        msg.extend_from_slice(&[1, 44]);
+        msg.extend(vec![0u8; 300]);
+        msg.extend(crate::g_frame::ref_encode(4, 0, b"v=2"));
+        msg.extend(crate::g_frame::ref_encode(1, 1, &[]));
+        let mut dest = vec![1u8, 127, 0, 0, 1];
+        dest.extend_from_slice(&target.addr.port().to_be_bytes());
+        msg.extend(crate::g_frame::ref_encode(2, 1, &dest));
+    } else if kind != "truncated" {
         msg.extend_from_slice(&[0, 3, 0, 0, 0]);
         msg.extend(crate::g_frame::ref_encode(4, 0, b"v=2"));
         msg.extend(crate::g_frame::ref_encode(1, 1, &[]));
@@ -604,13 +618,27 @@ async fn badpreamble(kind: &str, pwi: usize) -> Res {
         dest.extend_from_slice(&target.addr.port().to_be_bytes());
         msg.extend(crate::g_frame::ref_encode(2, 1, &dest));
     }
-    tls.write_all(&msg).await.map_err(|e| e.to_string())?;
-    tls.flush().await.map_err(|e| e.to_string())?;
+    if paused {
+        let (first, second): (Vec<u8>, Vec<u8>) = match kind {
+            "stray" => (vec![0x16, 0x03, 0x01, 0x02, 0x00], msg.clone()),
+            "goodpad" => (msg[..34 + 100].to_vec(), msg[34 + 100..].to_vec()),
+            _ => (msg[..32].to_vec(), msg[32..].to_vec()),
+        };
+        tls.write_all(&first).await.map_err(|e| e.to_string())?;
+        tls.flush().await.map_err(|e| e.to_string())?;
+        tokio::time::sleep(Duration::from_millis(pause_ms)).await;
+        tls.write_all(&second).await.map_err(|e| e.to_string())?;
+        tls.flush().await.map_err(|e| e.to_string())?;
+    } else {
+        tls.write_all(&msg).await.map_err(|e| e.to_string())?;
+        tls.flush().await.map_err(|e| e.to_string())?;
+    }
+    let good = kind == "good" || kind == "goodpad";
     let mut buf = vec![0u8; 4096];
-    let reply = match tokio::time::timeout(Duration::from_millis(if kind == "good" { 3000 } else { 400 }), tls.read(&mut buf)).await { Ok(Ok(n)) => n, _ => 0 };
-    if kind == "good" { let _ = wait_until(Duration::from_secs(3), || target.accepted.load(Ordering::SeqCst) >= 1).await; }
+    let reply = match tokio::time::timeout(Duration::from_millis(if good { 3000 } else { 400 }), tls.read(&mut buf)).await { Ok(Ok(n)) => n, _ => 0 };
+    if good { let _ = wait_until(Duration::from_secs(3), || target.accepted.load(Ordering::SeqCst) >= 1).await; }
     let dialled = target.accepted.load(Ordering::SeqCst);
-    if kind == "good" {
+    if good {
         if dialled != 1 || reply == 0 { fails.push(fail("valid_preamble_not_served/server_connection", format!("a correct preamble followed by SYN+destination: target dialled {dialled} times, {reply} reply bytes"))); }
     } else if dialled != 0 || reply != 0 {
         fails.push(fail("session_without_password/server_connection", format!("preamble kind `{kind}`: the server dialled the target {dialled} times and sent {reply} reply bytes")));
